@@ -101,7 +101,7 @@ _C14_FIXED = {
 for _l in _g14.prefix_layouts():
     _n = _g14.pname(_l)
     _c14h.append(H(
-        _n, "node", _M14, "wire_c14", tiers=Q, covers=1, rotate=_n not in _C14_FIXED, timeout={"quick": 900, "thorough": 1800},
+        _n, "node", _M14, "wire_c14", tiers=Q, covers=1, rotate=_n not in _C14_FIXED, timeout={"quick": 1200, "thorough": 3600},
         functions=_F_DESER,
         bounds=f"inductive step A: frame kind {_g14.NAMES[_l[0]]} (payload symbolic, control-flow fields concrete), first {_l[1]} of "
                f"its {_g14.LEN[_l[0]]} bytes fed: Ok(None) and the buffered bytes unchanged",
@@ -109,7 +109,7 @@ for _l in _g14.prefix_layouts():
 for _l in _g14.complete_layouts():
     _n = _g14.cname(_l)
     _c14h.append(H(
-        _n, "node", _M14, "wire_c14", tiers=Q, covers=1, rotate=_n not in _C14_FIXED, timeout={"quick": 900, "thorough": 1800},
+        _n, "node", _M14, "wire_c14", tiers=Q, covers=1, rotate=_n not in _C14_FIXED, timeout={"quick": 1200, "thorough": 3600},
         functions=_F_DESER,
         bounds=f"inductive step B: complete {_g14.NAMES[_l[0]]} frame followed by the first {_l[2]} byte(s) of a {_g14.NAMES[_l[1]]} "
                "frame: exactly the first frame is produced, exactly the extra bytes stay buffered (and the second frame is produced when complete)",
